@@ -2,7 +2,8 @@ import PxModel.Selector
 /-
   Model of the work executor, statement by statement:
 
-  * `proxy/core/work/threadless.py` — `Threadless._update_work_events`,
+  * `proxy/core/work/threadless.py` — `Threadless._update_work_events` (incl. the
+    unregistration of descriptors a work stops reporting),
     `_update_selector` (per-work `try/except` → deferred `_cleanup` of the
     failed works), `_selected_events`, `_create_tasks`, `_wait_for_tasks`,
     result handling in `_run_once`, `_cleanup` (tolerant `selector.unregister`,
@@ -134,16 +135,29 @@ def updEvents (x : Exec) (w : WorkId) : List (Fd × Mask) → Exec × Bool
     | (x', some _) => (x', true)
     | (x', none) => updEvents x' w rest
 
-def updWork (x : Exec) (w : WorkId) : EvRes → Exec × Bool
-  | .exc => (x, true)
-  | .ok evs => updEvents x w evs
-
-/-! ### `_cleanup` -/
-
 /-- `for fileno in registered[work_id]: try: selector.unregister(fileno) except (KeyError, ValueError): pass` -/
 def unregAll (sk : SK) : List (Fd × Mask) → SK
   | [] => sk
   | (fd, _) :: r => unregAll (unregister sk fd).1 r
+
+/-- the tail of `_update_work_events`: descriptors in the work's registry that `get_events()` no
+    longer reports are unregistered (tolerantly) and dropped from the registry -/
+def pruneStale (x : Exec) (w : WorkId) (evs : List (Fd × Mask)) : Exec :=
+  match aget x.registered w with
+  | none => x
+  | some r =>
+    let reported (e : Fd × Mask) : Bool := decide (e.1 ∈ evs.map (·.1))
+    { x with sk := unregAll x.sk (r.filter (fun e => !reported e)),
+             registered := aset x.registered w (r.filter reported) }
+
+def updWork (x : Exec) (w : WorkId) : EvRes → Exec × Bool
+  | .exc => (x, true)
+  | .ok evs =>
+    match updEvents x w evs with
+    | (x', true) => (x', true)
+    | (x', false) => (pruneStale x' w evs, false)
+
+/-! ### `_cleanup` -/
 
 def cleanup (x : Exec) (w : WorkId) (sd : Shutdown) : Except Dead Exec :=
   let x1 : Exec := match aget x.registered w with
